@@ -58,6 +58,11 @@ def impl_merge(eb, files, d):
     paths = []
     for i, b in enumerate(files):
         f = os.path.join(d, f"c{i}.bin")
+        if (len(b) + i) % 5 == 0:
+            # a file name is taken literally: one that holds shell pattern characters, next to a file the name read as a pattern would match (C10-o)
+            with open(f, "wb") as fh:
+                fh.write(bytes.fromhex("bf656465636f795a0000000100ff"))
+            f = os.path.join(d, [f"c[{i}].bin", f"c?{i}.bin".replace("?", "") + "", f"c{i}*.bin"][(len(b) // 5) % 3]) if (len(b) // 5) % 3 != 1 else os.path.join(d, f"c[{i}-{i}].bin")
         with open(f, "wb") as fh:
             fh.write(b)
         paths.append(f)
